@@ -26,9 +26,10 @@ Definition NOTIME := -1.            (* UINT64_MAX *)
 Record conn := {
   cid : Z; st : Z; running : bool; vs : Z; vr : Z; unconf : Z; t2trig : bool; lastconf : Z;
   nextT3 : Z; wtest : bool; nextTest : Z; kbuf : list kent; hp : list (list Z); rs : rstate;
-  avail : list Z; peer_closed : bool; wmode : Z }.
+  avail : list Z; peer_closed : bool; wmode : Z;
+  kmax : Z }.      (* maxSentASDUs: the k fixed when the connection was accepted (MasterConnection_init) *)
 #[export] Instance eta_conn : Settable _ :=
-  settable! Build_conn <cid; st; running; vs; vr; unconf; t2trig; lastconf; nextT3; wtest; nextTest; kbuf; hp; rs; avail; peer_closed; wmode>.
+  settable! Build_conn <cid; st; running; vs; vr; unconf; t2trig; lastconf; nextT3; wtest; nextTest; kbuf; hp; rs; avail; peer_closed; wmode; kmax>.
 
 Record server := { con : option conn; pending : list Z; mq : list qent; next_id : Z; opencnt : Z; replyctr : Z;
                    to_close : list Z }.
@@ -58,7 +59,8 @@ Definition send_i (now : Z) (c : conn) (asdu : list Z) (entry : option Z) : conn
             else c <| running := false |> <| unconf := 0 |> in
   (c1 <| kbuf := kbuf c1 ++ [{| k_ack := vs c1; k_time := now; k_entry := entry |}] |>, o).
 
-Definition kfull (k : Z) (c : conn) : bool := Z.of_nat (length (kbuf c)) >=? k.
+(* isSentBufferFull: against the connection's own k; the first argument (the configured k) is kept for the callers' signature only *)
+Definition kfull (k : Z) (c : conn) : bool := Z.of_nat (length (kbuf c)) >=? kmax c.
 
 Definition send_s_raw (c : conn) : conn * list obs :=
   let '(r, o) := wr c (enc_s (vr c)) in
@@ -315,7 +317,7 @@ Definition handle_timeouts (g : cfg) (now : Z) (c : conn) : conn * bool * list o
 Definition new_conn (g : cfg) (now : Z) (id : Z) : conn :=
   {| cid := id; st := STOPPED; running := true; vs := 0; vr := 0; unconf := 0; t2trig := false; lastconf := NOTIME;
      nextT3 := now + c_t3 g * 1000; wtest := false; nextTest := 0; kbuf := []; hp := []; rs := rinit;
-     avail := []; peer_closed := false; wmode := 0 |}.
+     avail := []; peer_closed := false; wmode := 0; kmax := c_k g |}.
 
 Definition tick (g : cfg) (now : Z) (s : server) : server * list obs :=
   (* handleConnectionsThreadless: accept at most one pending connection (no open-connection limit here) *)
